@@ -277,6 +277,10 @@ def main():
                     help='fraction of each quick budget (matrix runs)')
     ap.add_argument('--seeded', action='store_true',
                     help='run against /verif/seeded/*/patch.diff instead')
+    ap.add_argument('--refactors', action='store_true',
+                    help='behaviour-preserving refactorings written by '
+                         'sub-agents (/verif/refactors): every check must '
+                         'stay quiet')
     ap.add_argument('--harmless', action='store_true',
                     help='harmless refactors: every check must stay quiet')
     ap.add_argument('--all-props', action='store_true',
@@ -297,6 +301,13 @@ def main():
                 items.append((sid, mj.get('caught_by_expected',
                                           [mj['property']]),
                               os.path.join(root, sid, 'patch.diff')))
+    elif a.refactors:
+        root = os.path.join(VERIF, 'refactors')
+        for sid in sorted(os.listdir(root)):
+            if os.path.exists(os.path.join(root, sid, 'patch.diff')):
+                items.append((sid, [], os.path.join(root, sid, 'patch.diff')))
+        a.all_props = True
+        a.seeded = True         # apply with git apply
     elif a.harmless:
         items = [(n, [], e) for n, e in HARMLESS]
         a.all_props = True
@@ -343,6 +354,14 @@ def main():
         finally:
             shutil.rmtree(d, ignore_errors=True)
             shutil.rmtree(out, ignore_errors=True)
+    if a.refactors:
+        alarms = [(r['mutant'], p_, c['exit']) for r in results
+                  for p_, c in r.get('checks', {}).items() if c['exit'] != 0]
+        print('refactorings: %d, alarms: %s' % (len(results), alarms))
+        if not a.only:
+            with open(os.path.join(VERIF, 'refactor_results.json'), 'w') as f:
+                json.dump({'scale': SCALE, 'results': results}, f, indent=1)
+        return 0
     if a.seeded and a.all_props and not a.only:
         name = 'sensitivity_seeded_matrix.json'
         with open(os.path.join(VERIF, name), 'w') as f:
